@@ -14,7 +14,7 @@ CLAIMS = {
             "as C01"),
     "C03": ("Theorem C03_wire_format: the implementation model's bytes equal the independent spec-style serializer of Spec.v for every typed value; Spec.v reproduces the test suite's pinned vectors. Tie + oracle: crate bytes vs extracted enc and spec_enc.",
             "Spec.v is the reference for the SSZ text and the library's documented mappings; it is hand-written"),
-    "C04": ("Theorem C04_exact: dec t bs = Ok v <-> Valid t bs v for strict types and inputs below 2^32; forward theorems for maps/sets; transparent enums = first accepting variant. Oracle: crate accept/value vs extracted valid_b, and valid encodings must be accepted.",
+    "C04": ("Theorem C04_exact: dec t bs = Ok v <-> Valid t bs v for strict types and inputs below 2^32; forward theorems for maps/sets and C04_collections_at_any_depth (dec t bs = Ok v <-> some L is Valid for the entry-list view of t and v is its collection, for sets/maps nested anywhere); transparent enums = first accepting variant. Oracle: crate accept/value vs extracted valid_b, and valid encodings must be accepted.",
             "the 2^32 bound is the spec's serialization bound; the crate does not enforce it and the theorem does not claim it"),
     "C05": ("Theorem C05_decode_no_panic for every type expression and every byte string, plus the helpers, the list decoder with any limit/collection and the builder with any registration sequence: every Rust panic site is an explicit Panic branch of the model and is proved unreachable. Tie: outcome class of every decode/helper/builder call under catch_unwind; a dying harness process is attributed to its last case.",
             "partial: stack depth and allocation failure are runtime behaviour outside the model (self-referential derive inputs are not terms of the type algebra); panics inside std or third-party code the model does not mention would only be seen by the differential run"),
